@@ -57,6 +57,10 @@ def make_cell(cfg, policy, req, rename, params, use, malformed):
         xrt["path"] = "Target"
     elif malformed == "path_wrong_crate":
         xrt["path"] = "other_crate::m::Target"
+    elif malformed == "path_prefix_of_crate":
+        xrt["path"] = "ext_crate_internal::m::Target"     # first segment merely STARTS WITH the crate's identifier
+    elif malformed == "path_crate_is_prefix":
+        xrt["path"] = "ext::m::Target"                    # ... or is a prefix of it
     elif malformed == "wrong_types":
         xrt["crate"] = 5
     elif malformed == "missing_version":
@@ -160,7 +164,8 @@ def cells():
                     out.append(dict(cfg=cfg, policy=policy, req=req, m=m, rename=rename, params=params,
                                     use=use, malformed=None))
     # malformed extensions in configurations that would otherwise substitute
-    for mal in ("bad_req", "path_no_sep", "path_wrong_crate", "wrong_types", "missing_version"):
+    for mal in ("bad_req", "path_no_sep", "path_wrong_crate", "path_prefix_of_crate", "path_crate_is_prefix", "wrong_types",
+                "missing_version"):
         for cfg, policy in (("absent", "Allow"), ("*", "Generate"), ("1.2.3", "Deny")):
             for params in ("p0", "p1r"):
                 for use in ("def_eq", "def_diff", "inline"):
